@@ -8,3 +8,4 @@ open Qvnt
 #print axioms C04_id
 #print axioms C04_reg
 #print axioms C04_reg_size
+#print axioms C04_commute
